@@ -281,11 +281,23 @@ def summary(o):
 
 
 def boxes(ctx):
-    """(exhaustively executed configurations, sampled configurations with sample size)"""
+    """(configurations enumerated and executed exhaustively, configurations sampled by TLC's simulation mode, #traces)"""
     if ctx.quick:
-        return ([(2, (3, 3, 0), 2, True), (2, (3, 2, 0), 3, False), (3, (2, 2, 2), 2, False)], [])
-    return ([(2, (4, 4, 0), 2, True), (2, (3, 3, 0), 3, True), (3, (2, 2, 2), 3, False), (3, (3, 2, 2), 2, True)],
-            [((2, (4, 3, 0), 3, True), 4000), ((3, (3, 3, 3), 2, False), 1500), ((3, (3, 2, 2), 3, False), 1000)])
+        return [(2, (3, 3, 0), 2, True), (2, (3, 2, 0), 3, False), (3, (2, 2, 2), 2, False)], [], 0
+    return ([(2, (4, 4, 0), 2, True), (2, (3, 3, 0), 3, True), (3, (2, 2, 2), 3, False), (3, (3, 2, 2), 2, False)],
+            [(2, (4, 4, 0), 3, True), (2, (4, 3, 0), 3, True), (3, (3, 3, 3), 3, True), (3, (3, 3, 2), 3, True)], 1200)
+
+
+def netkey(r):
+    return (r["dim"], tuple(r["box"]), tuple(tuple(map(tuple, f)) for f in r["fracs"]))
+
+
+def enumerate_networks(ctx, cfgs, tag, traces=0):
+    kw = dict(simulate=f"num={traces}", depth=4, workers=1) if traces else dict(workers=8)
+    res = ctx.tlc(*tlc.gen(ctx.work / tag, "MC_FracMeshEnum", "FracMeshEnum", dict(Boxes=set(cfgs)),
+                           invariants=["Laws", "Emit"]), allow_violation=False, timeout=1800, **kw)
+    # TLC prints in the order its workers reach the states: sort, so that seeded sampling is reproducible
+    return sorted({netkey(r): r for r in res.records}.values(), key=netkey)
 
 
 def run(ctx):
@@ -298,29 +310,21 @@ def run(ctx):
                 "several mesh sizes, judged by the validity clauses; a case is non-trivial when the network has an "
                 "intersection; keys = (family, dim, box, #fractures, #X, #T, #L intersections, #0-d points in 3D, "
                 "touches boundary, call path)")
-    full, sampled = boxes(ctx)
-    res = ctx.tlc(*tlc.gen(ctx.work / "enum", "MC_FracMeshEnum", "FracMeshEnum",
-                           dict(Boxes=set(full) | {b for b, _ in sampled}), invariants=["Laws", "Emit"]),
-                  allow_violation=False, workers=8, timeout=1800)
-    ctx.extra["enumerated_networks"] = len(res.records)
-    fullset = {(b[0], tuple(b[1])) for b in full}
-    recs_full = [r for r in res.records if (r["dim"], tuple(r["box"])) in fullset]
-    inputs, stats = [], []
-    for r in recs_full:
-        inputs.append(lattice_input(r))
-        stats.append(r["stats"])
-    n_sampled = 0
-    for b, n in sampled:
-        pool = sorted((r for r in res.records if (r["dim"], tuple(r["box"])) == (b[0], tuple(b[1]))
-                       and len(r["fracs"]) == b[2]), key=lambda r: str(r["fracs"]))
-        for r in ctx.rng.sample(pool, min(n, len(pool))):
-            inputs.append(lattice_input(r))
-            stats.append(r["stats"])
-            n_sampled += 1
+    full, sampled, traces = boxes(ctx)
+    recs_full = enumerate_networks(ctx, full, "enum")
+    ctx.extra["enumerated_networks"] = len(recs_full)
+    recs = list(recs_full)
+    if sampled:
+        have = {netkey(r) for r in recs_full}
+        extra = [r for r in enumerate_networks(ctx, sampled, "simul", traces) if netkey(r) not in have]
+        ctx.extra["simulated_networks"] = len(extra)
+        recs += extra
+    inputs = [lattice_input(r) for r in recs]
+    stats = [r["stats"] for r in recs]
     # the same lattice networks through the other public entry points (seeded sample of the intersecting ones)
     alt = [r for r in recs_full if r["stats"]["n2"] > 0]
     for path in ("create_mdg_cartesian", "create_mdg_tensor"):
-        for r in ctx.rng.sample(alt, min(len(alt), 40 if ctx.quick else 400)):
+        for r in ctx.rng.sample(alt, min(len(alt), 40 if ctx.quick else 300)):
             inputs.append(lattice_input(r, path))
             stats.append(r["stats"])
     cases = execute_all(inputs)
@@ -336,8 +340,9 @@ def run(ctx):
         ctx.case(key=("simplex", i["name"], i["args"]["h100"]), nontrivial=len(c["out"]["intfs"]) > len(i["fracs"]))
     for c in (cases[len(cases) // 2], cases[-1], sim_cases[0]):
         ctx.sample({"in": {k: v for k, v in c["in"].items() if k != "lat"}, "observed": summary(c["out"])})
-    ctx.exhaustive = n_sampled == 0
-    ctx.extra.update(lattice_cases=len(cases), lattice_sampled=n_sampled, simplex_cases=len(sim_cases),
+    # every network of the exhaustively enumerated boxes was executed; the simulated boxes are a sample on top
+    ctx.exhaustive = True
+    ctx.extra.update(lattice_cases=len(cases), simplex_cases=len(sim_cases),
                      meshing_exceptions=sum(1 for c in cases + sim_cases if c["out"]["err"]))
     ctx.assumptions += [
         "lattice family: fractures are axis-aligned, inside the box, not inside the domain boundary, pairwise without a "
